@@ -227,7 +227,7 @@ func genUpload(r *common.Rand, o *progOpts, b, n string) *uploadSpec {
 // runStep draws one step from the weighted kinds, executes it and returns what it refuted ("" if nothing).
 func runStep(r *common.Rand, e *exec, o *progOpts) string {
 	total := 0
-	kinds := []string{"upload", "overwrite", "delete", "delete_absent", "patch", "patch_absent", "compose", "copy", "burst", "patch_burst", "noop"}
+	kinds := []string{"upload", "overwrite", "delete", "delete_absent", "patch", "patch_absent", "compose", "copy", "burst", "patch_burst", "patch_full", "noop"}
 	for _, k := range kinds {
 		total += o.W[k]
 	}
@@ -294,6 +294,39 @@ func runStep(r *common.Rand, e *exec, o *progOpts) string {
 			}
 		}
 		return ""
+	case "patch_full":
+		// read-modify-write client: sends back a full resource it got from an earlier metadata GET (current or
+		// stale, possibly of an earlier incarnation of the name), optionally with user fields changed
+		n, ok := pickLive()
+		if !ok {
+			return ""
+		}
+		snaps := e.snaps[b+"\x00"+n]
+		if len(snaps) == 0 {
+			e.snapshot(b, n)
+			snaps = e.snaps[b+"\x00"+n]
+		}
+		if len(snaps) == 0 {
+			return ""
+		}
+		body := cloneResource(snaps[r.Intn(len(snaps))])
+		if r.Chance(2, 3) {
+			for k, v := range genPatchFields(r) {
+				if k == "metadata" {
+					mm, _ := body[k].(map[string]any)
+					if mm == nil {
+						mm = map[string]any{}
+					}
+					for a, x := range v.(map[string]any) {
+						mm[a] = x
+					}
+					body[k] = mm
+				} else {
+					body[k] = v
+				}
+			}
+		}
+		return e.patch(b, n, body, genConds(r, e, o, b, n))
 	case "patch_burst":
 		n, ok := pickLive()
 		if !ok {
